@@ -512,6 +512,80 @@ fn run(ctx: &mut Ctx) {
             }
         }
     }
+    // family C: a golden that cannot be read as text. `assert(got)` may succeed only when got EQUALS the file's content:
+    // no string equals bytes that are not UTF-8 (or a directory), so without update mode either `new` fails or every
+    // `assert` panics - and nothing on disk changes. In update mode the statement only fixes the file's content after a
+    // successful assert.
+    {
+        let kinds: [(&str, Option<&[u8]>); 4] = [("invalid-utf8-bytes", Some(&[0xff, 0xfe, b'a', b'\n'])), ("latin1-text", Some(b"caf\xe9\n")), ("lone-continuation-byte", Some(&[b'a', 0x80])), ("path-is-a-directory", None)];
+        let mut nc = 0u64;
+        for (kname, bytes) in kinds {
+            for env in ENVS {
+                nc += 1;
+                let root = root.clone();
+                ctx.case(
+                    || format!("golden file: {} ({:?}); UPDATE_GOLDEN {}; Golden::new, then assert(g) for every g in the content alphabet", kname, bytes, env.name()),
+                    move || {
+                        let w = World::new(&root, 0);
+                        match bytes {
+                            Some(b) => std::fs::write(&w.path, b).expect("harness bug: write"),
+                            None => std::fs::create_dir_all(&w.path).expect("harness bug: mkdir"),
+                        }
+                        env.apply();
+                        w.age();
+                        let before = w.observe();
+                        let p = w.path.clone();
+                        let made = fw::guarded(move || Golden::new(p));
+                        let out = match made {
+                            Err(sig) => Outcome::violation(format!("unreadable-golden/new-panicked/{}", kname), sig),
+                            Ok(Err(_)) => {
+                                if w.observe() != before {
+                                    Outcome::violation(format!("unreadable-golden/new-failed-but-touched-the-disk/{}", kname), "Golden::new returned an error and changed the directory")
+                                } else {
+                                    Outcome::pass(format!("unreadable-golden/{}/env-{}/new-fails", kname, env.name()))
+                                }
+                            }
+                            Ok(Ok(g)) => {
+                                let mut verdict = None;
+                                for got in CONTENTS {
+                                    let ok = fw::guarded(|| g.assert(got)).is_ok();
+                                    match env.mode() {
+                                        Mode::NoUpdate => {
+                                            if ok {
+                                                verdict = Some(Outcome::violation(format!("unreadable-golden/assert-succeeded/{}/env-{}", kname, env.name()), format!("assert({:?}) succeeded although the golden file holds no text at all", got)));
+                                                break;
+                                            }
+                                            if w.observe() != before {
+                                                verdict = Some(Outcome::violation(format!("unreadable-golden/wrote-without-update/{}/env-{}", kname, env.name()), "the golden file or its directory changed although UPDATE_GOLDEN is not set"));
+                                                break;
+                                            }
+                                        }
+                                        Mode::Update => {
+                                            if ok && bytes.is_some() && std::fs::read(&w.path).ok().as_deref() != Some(got.as_bytes()) {
+                                                verdict = Some(Outcome::violation(format!("unreadable-golden/update-mode/file-differs-from-got/{}", kname), format!("assert({:?}) succeeded in update mode but the file does not hold got", got)));
+                                                break;
+                                            }
+                                        }
+                                        Mode::Unknown => {}
+                                    }
+                                }
+                                verdict.unwrap_or_else(|| match env.mode() {
+                                    Mode::NoUpdate => Outcome::pass(format!("unreadable-golden/{}/env-{}/every-assert-panics", kname, env.name())),
+                                    Mode::Update => Outcome::pass(format!("unreadable-golden/{}/env-{}/update", kname, env.name())),
+                                    Mode::Unknown => Outcome::dont_care(format!("unreadable-golden/{}/env-non-utf8", kname)),
+                                })
+                            }
+                        };
+                        let _ = std::fs::remove_dir_all(&w.path);
+                        let _ = std::fs::remove_file(&w.path);
+                        std::env::remove_var(VAR);
+                        out
+                    },
+                );
+            }
+        }
+        ctx.fact("family_c_cases", nc);
+    }
     ctx.fact("family_a_cases", family_a_cases);
     ctx.fact("family_b_cases", serial - family_a_cases);
     ctx.fact("family_b_depth", depth_b as u64);
